@@ -43,7 +43,7 @@ let model_kv (s : state) : (string * string) list =
   @ L.concat_map (fun (p : pool) ->
       [ (Printf.sprintf "pool:%s:%s" (zs p.pl_app) (zs p.pl_id),
          cat [zs p.pl_pair; b p.pl_ranged; b p.pl_disabled; zs p.pl_last_dep; zs p.pl_last_wd]);
-        (let d = pool_denom p.pl_app p.pl_id in (Printf.sprintf "sup:%s" (zs d), zs (s.sup d))) ]) s.pools
+        (let d = pool_denom p.pl_app p.pl_id in (Printf.sprintf "sup:%s" (zs d), zs (s.sup p.pl_app p.pl_id))) ]) s.pools
   @ L.map (fun (r : depreq) ->
       (Printf.sprintf "dep:%s:%s:%s" (zs r.d_app) (zs r.d_pool) (zs r.d_id),
        cat [zs r.d_owner; zs r.d_x; zs r.d_y; zs r.d_ax; zs r.d_ay; zs r.d_pc; zs r.d_status])) s.deps
@@ -192,7 +192,7 @@ let run_prop (prop : string) (path : string) =
         | _ -> ()) changed;
     (* C07: every trader account's balance change is explained by the records of its orders *)
     Hashtbl.iter (fun n () ->
-        if int_of_string n >= 50 && int_of_string n <> 90 then begin
+        if not c04 && int_of_string n >= 50 && int_of_string n <> 90 then begin
           let os = orders_of by_owner n in
           L.iter (fun d ->
               let bk = Printf.sprintf "bal:u.%s:%s" n d in
@@ -216,21 +216,21 @@ let run_prop (prop : string) (path : string) =
                  if Hashtbl.mem impl balk then begin
                    let balance = impl_z balk in
                    let net = geti fills_net (ap ^ ":" ^ d) in
-                   bump "eval:C07_escrow";
+                   if not c04 then bump "eval:C07_escrow";
                    (* exact decomposition, given the recorded fills *)
-                   if not (holds_C07_escrow (rate_of (z a)) os (z d) balance net) then
+                   if not c04 && not (holds_C07_escrow (rate_of (z a)) os (z d) balance net) then
                      pf ~pred:"holds_C07_escrow_decomposition" ~kf:"none" ~detail:(Printf.sprintf "pair=%s_denom=%s_balance=%s_fills_net=%s" ap d (zs balance) (zs net));
                    (* nothing of a terminated order remains: relative to conservation of the recorded fills *)
-                   if not (holds_C07_escrow (rate_of (z a)) os (z d) balance z0) then
+                   if not c04 && not (holds_C07_escrow (rate_of (z a)) os (z d) balance z0) then
                      pf ~pred:"holds_C07_nothing_left" ~kf:(pair_kf ap) ~detail:(Printf.sprintf "pair=%s_denom=%s_balance=%s_fills_net=%s" ap d (zs balance) (zs net));
                    (* C04: escrow >= remaining offer coins of the live orders *)
                    let req = L.fold_left (fun acc (o : order) -> if zeq o.o_odenom (z d) && not (is_term o.o_status) then zadd acc o.o_rem else acc) z0 live in
-                   bump "eval:C04_pair_escrow";
-                   if not (holds_C04_escrow balance req) then
+                   if c04 then bump "eval:C04_pair_escrow";
+                   if c04 && not (holds_C04_escrow balance req) then
                      pf ~pred:"holds_C04_pair_escrow" ~kf:(pair_kf ap) ~detail:(Printf.sprintf "pair=%s_denom=%s_balance=%s_required=%s" ap d (zs balance) (zs req))
                  end;
                  let feek = Printf.sprintf "bal:fee.%s.%s:%s" a p d in
-                 if Hashtbl.mem impl feek then begin
+                 if not c04 && Hashtbl.mem impl feek then begin
                    bump "eval:C07_feecoll";
                    if not (holds_C07_feecoll (rate_of (z a)) os (z d) (impl_z feek)) then
                      pf ~pred:"holds_C07_feecoll" ~kf:"none" ~detail:(Printf.sprintf "pair=%s_denom=%s_balance=%s" ap d (Hashtbl.find impl feek))
@@ -239,15 +239,16 @@ let run_prop (prop : string) (path : string) =
         | _ -> ()) prs;
     (* C07: CancelMM / MM replace cancels every previously indexed MM order *)
     (match !pending_mm with
-     | Some (a, _ow, p, ids) ->
+     | Some (a, _ow, p, ids) when not c04 ->
        let sts = L.filter_map (fun id -> try Some (order_of_kv (Printf.sprintf "ord:%s:%s:%s" a p id) (Hashtbl.find impl (Printf.sprintf "ord:%s:%s:%s" a p id))).o_status
                                 with Not_found -> None) ids in
        bump "eval:C07_mm";
        if not (holds_C07_mm sts) then
-         pf ~pred:"holds_C07_mm_cancel" ~kf:(if kf_C07_1 (z a) (z p) then "kf_C07_1" else "none")
+         pf ~pred:"holds_C07_mm_cancel" ~kf:"none"
            ~detail:(Printf.sprintf "app=%s_pair=%s_indexed=%d_still_live=%d" a p (L.length ids) (L.length (L.filter is_live sts)))
-     | None -> ());
+     | _ -> ());
     pending_mm := None;
+    if c04 then begin
     (* ---- C04 ---- *)
     (* global escrow >= pending deposits + pending withdrawals, over ALL apps *)
     let need : (string, BinNums.coq_Z) Hashtbl.t = Hashtbl.create 8 in
@@ -315,6 +316,7 @@ let run_prop (prop : string) (path : string) =
                 ~detail:(Printf.sprintf "pool=%s:%s_op=%s_before=%s_after=%s_created=%s_minted=%s_burned=%s" a pl !cur_op (zs before) (zs sup) (zs created) (zs !minted) (zs !burned))
           end
         | _ -> ()) impl
+    end
   in
 
   (* ------- diff of the full projection, after each step ------- *)
@@ -387,7 +389,7 @@ let run_prop (prop : string) (path : string) =
            let k = Printf.sprintf "ord:%s:%s:%s" (zs a) (zs p) (zs id) in
            (match (try Some (order_of_kv k (Hashtbl.find impl k)) with Not_found -> None),
                   (try tokens (Hashtbl.find impl (Printf.sprintf "pair:%s:%s" (zs a) (zs p))) with Not_found -> []) with
-            | Some od, [_; _; _; _; _; batch] when zeq od.o_owner ow && not (zeq od.o_status (zi 5)) && not (zeq od.o_batch (z batch)) ->
+            | Some od, [_; _; _; _; _; batch] when not c04 && zeq od.o_owner ow && not (zeq od.o_status (zi 5)) && not (zeq od.o_batch (z batch)) ->
               bump "eval:C07_cancellable";
               if res <> "ok" then pf ~pred:"holds_C07_cancellable" ~kf:(pair_kf (zs a ^ ":" ^ zs p)) ~detail:("cancel_refused_" ^ k)
             | _ -> ())
